@@ -207,6 +207,11 @@ theorem oms_agrees_with_l2_attrs (M : Module) (k : Nat) (ext : Option Nat) (comp
 section per
 open Asn1c.Impl.CRange Asn1c.Impl.CTables Asn1c.Impl.ConsParse Asn1c.Spec.Constraint
 
+/-- the 64-bit bounds the two theorems of this section are stated for (`intmax_t`; the compiler itself
+    computes in the 128-bit `asn1c_integer_t`, see C09) -/
+def INTMAX_MIN : Int := -9223372036854775808
+def INTMAX_MAX : Int := 9223372036854775807
+
 /-- **INTEGER (l..u) / (l..u, ...)**: whenever the compiler's range computation delivers a range (it never failed
     in the correspondence runs; C09 proves what it delivers), the emitted value record is the X.691 10.5 layout of
     the constraint the UPER reference codec works with (`L2.IntC` = the same `lo`, `hi`, `ext`): constrained,
@@ -214,7 +219,7 @@ open Asn1c.Impl.CRange Asn1c.Impl.CTables Asn1c.Impl.ConsParse Asn1c.Spec.Constr
     `emit_single_member_PER_constraint` computes it, APC_EXTENSIBLE iff the marker is written. -/
 theorem int_per_record (c : Impl.CompileDescr.Cons) (l u : Int) (hlo : c.lo = some l) (hhi : c.hi = some u)
     (hlu : l ≤ u) (hl : INTMAX_MIN < l ∧ l < INTMAX_MAX) (hu : INTMAX_MIN < u ∧ u < INTMAX_MAX) (r : Range)
-    (hr : computeTop { req := .value } (some (combinedCT (.value c))) = .ok r) :
+    (hr : computeTop { req := .value, rootOnly := true } (some (combinedCT (.value c))) = .ok r) :
     ∃ n : Nat, IsRangeBits (u - l + 1) n ∧
       (encTables .integer (some (.value c)) none).1.1 =
         ⟨2 + (if c.ext then 4 else 0), n, effBits (1 + u - l) u, l, u⟩ := by
@@ -235,14 +240,17 @@ theorem int_per_record (c : Impl.CompileDescr.Cons) (l u : Int) (hlo : c.lo = so
     rcases hshape with ⟨h, _, h3⟩ | ⟨h, h3⟩ | ⟨h, _, h3⟩ | ⟨h, h3⟩ <;> rw [h, h3] <;> rfl
   have hd : Asn1c.Impl.CRange.DomV (consExpr c) := by
     rcases hshape with ⟨h, _, _⟩ | ⟨h, _⟩ | ⟨h, _, _⟩ | ⟨h, _⟩ <;> rw [h] <;>
-      simp [Asn1c.Impl.CRange.DomV, Asn1c.Impl.CRange.IsLevelAny, Asn1c.Impl.CRange.IsSpec, Asn1c.Impl.CRange.IsElem]
-  have hnd : Asn1c.Impl.CRange.NonDeg ISet.univ (consExpr c) := by
-    rcases hshape with ⟨h, _, _⟩ | ⟨h, _⟩ | ⟨h, _, _⟩ | ⟨h, _⟩ <;> rw [h] <;>
-      simp [Asn1c.Impl.CRange.NonDeg, ISet.univ, End.below, End.above] <;> exact ⟨l, by omega, hlu⟩
+      simp [Asn1c.Impl.CRange.DomV, Asn1c.Impl.CRange.IsChainAny, Asn1c.Impl.CRange.IsLevelAny,
+        Asn1c.Impl.CRange.IsSpec, Asn1c.Impl.CRange.IsElem]
+  have hw : Asn1c.Impl.CRange.Written (consExpr c) := by
+    rcases hshape with ⟨h, _, _⟩ | ⟨h, _⟩ | ⟨h, _, _⟩ | ⟨h, _⟩ <;> rw [h] <;> simp [Asn1c.Impl.CRange.Written]
+  have hne : ∃ y, visible ISet.univ (consExpr c) y = true := ⟨l, by rw [hvis]; simp [hlu]⟩
   have hlits : Asn1c.Impl.CRange.LitsOK (consExpr c) := by
+    simp only [INTMAX_MIN, INTMAX_MAX] at hl hu
     rcases hshape with ⟨h, _, _⟩ | ⟨h, _⟩ | ⟨h, _, _⟩ | ⟨h, _⟩ <;> rw [h] <;>
-      simp [Asn1c.Impl.CRange.LitsOK, Asn1c.Impl.CRange.EndOK, hl, hu]
-  have heff := Asn1c.Props.C09.crange_effective_partial (p := { req := .value }) rfl rfl rfl hd hnd hlits hr
+      simp [Asn1c.Impl.CRange.LitsOK, Asn1c.Impl.CRange.EndOK, ASN_INTEGER_MIN, ASN_INTEGER_MAX] <;> omega
+  have heff := Asn1c.Props.C09.crange_effective (p := { req := .value, rootOnly := true }) rfl rfl rfl hd hw hlits hne
+    (Or.inl (Or.inr (Or.inl rfl))) hr
   simp only [Bool.false_eq_true, if_false] at heff
   obtain ⟨hrepr, hre, hnp⟩ := heff
   have hrepr' : Asn1c.Impl.CRange.Repr r (fun y => decide (l ≤ y) && decide (y ≤ u)) := hrepr.congr hvis
@@ -254,7 +262,10 @@ theorem int_per_record (c : Impl.CompileDescr.Cons) (l u : Int) (hlo : c.lo = so
     intro x hx; simp at hx; exact hx.2
   have hlay := Asn1c.Props.C09.per_table_eq_layout hrepr' hnp hlb hub
   simp only [perForm] at hlay
-  obtain ⟨n, hn, htab⟩ := hlay
+  obtain ⟨n, hn, htab⟩ := hlay (by
+    simp only [INTMAX_MIN, INTMAX_MAX] at hl hu
+    have : (2:Int) ^ 126 = 85070591730234615865843651857942052864 := by norm_num
+    omega)
   refine ⟨n, hn, ?_⟩
   have hmodel : (encTables .integer (some (.value c)) none).1.1 = perOf (perConstraint (some r)) := by
     simp only [encTables, emitTables, Option.map_some, hcomb, hr, resRange]
@@ -266,7 +277,7 @@ theorem int_per_record (c : Impl.CompileDescr.Cons) (l u : Int) (hlo : c.lo = so
     constrained whole number (u < 64K), −1 (general length determinant) otherwise. -/
 theorem size_per_record (c : Impl.CompileDescr.Cons) (l u : Int) (hlo : c.lo = some l) (hhi : c.hi = some u)
     (h0 : 0 ≤ l) (hlu : l ≤ u) (hu : u < INTMAX_MAX) (r : Range)
-    (hr : computeTop { req := .size } (some (combinedCT (.size c))) = .ok r) :
+    (hr : computeTop { req := .size, rootOnly := true } (some (combinedCT (.size c))) = .ok r) :
     ∃ n : Nat, IsRangeBits (u - l + 1) n ∧
       (encTables .octets (some (.size c)) none).1.2 =
         ⟨2 + (if c.ext then 4 else 0), n, if sizeIsConstrainedNumber u then rangeBits (1 + u - l) else -1, l, u⟩ := by
@@ -287,15 +298,16 @@ theorem size_per_record (c : Impl.CompileDescr.Cons) (l u : Int) (hlo : c.lo = s
   have hs : Asn1c.Impl.CRange.IsSpec (consExpr c) := by
     rcases hshape with ⟨h, _, _⟩ | ⟨h, _⟩ | ⟨h, _, _⟩ | ⟨h, _⟩ <;> rw [h] <;>
       simp [Asn1c.Impl.CRange.IsSpec, Asn1c.Impl.CRange.IsElem]
-  have hnd : Asn1c.Impl.CRange.NonDeg ISet.nat (consExpr c) := by
-    rcases hshape with ⟨h, _, _⟩ | ⟨h, _⟩ | ⟨h, _, _⟩ | ⟨h, _⟩ <;> rw [h] <;>
-      simp [Asn1c.Impl.CRange.NonDeg, ISet.nat, End.below, End.above, h0] <;> exact ⟨l, by omega, hlu, h0⟩
+  have hw : Asn1c.Impl.CRange.Written (consExpr c) := by
+    rcases hshape with ⟨h, _, _⟩ | ⟨h, _⟩ | ⟨h, _, _⟩ | ⟨h, _⟩ <;> rw [h] <;> simp [Asn1c.Impl.CRange.Written]
+  have hne : ∃ y, visible ISet.nat (consExpr c) y = true := ⟨l, by
+    have := hvis l; simp only [visible] at this; rw [this]; simp [hlu]⟩
   have hlits : Asn1c.Impl.CRange.LitsOK (consExpr c) := by
-    have : INTMAX_MIN < l := by simp only [INTMAX_MIN]; omega
-    have : INTMAX_MIN < u := by simp only [INTMAX_MIN]; omega
+    simp only [INTMAX_MAX] at hu
     rcases hshape with ⟨h, h2, _⟩ | ⟨h, _⟩ | ⟨h, h2, _⟩ | ⟨h, _⟩ <;> rw [h] <;>
-      simp [Asn1c.Impl.CRange.LitsOK, Asn1c.Impl.CRange.EndOK, *] <;> omega
-  have heff := Asn1c.Props.C09.crange_size_effective_partial (p := { req := .size }) rfl rfl rfl hs hnd hlits hr
+      simp [Asn1c.Impl.CRange.LitsOK, Asn1c.Impl.CRange.EndOK, ASN_INTEGER_MIN, ASN_INTEGER_MAX] <;> omega
+  have heff := Asn1c.Props.C09.crange_size_effective (p := { req := .size, rootOnly := true }) rfl rfl rfl hs hw hlits hne
+    (Or.inl (Or.inr (Or.inl rfl))) hr
   simp only [Bool.false_eq_true, if_false] at heff
   obtain ⟨hrepr, hre, hnp⟩ := heff
   have hrepr' : Asn1c.Impl.CRange.Repr r (fun y => decide (l ≤ y) && decide (y ≤ u)) := hrepr.congr hvis
@@ -307,7 +319,10 @@ theorem size_per_record (c : Impl.CompileDescr.Cons) (l u : Int) (hlo : c.lo = s
     intro x hx; simp at hx; exact hx.2
   have hlay := Asn1c.Props.C09.per_table_eq_layout hrepr' hnp hlb hub
   simp only [perForm] at hlay
-  obtain ⟨n, hn, htab⟩ := hlay
+  obtain ⟨n, hn, htab⟩ := hlay (by
+    simp only [INTMAX_MAX] at hu
+    have : (2:Int) ^ 126 = 85070591730234615865843651857942052864 := by norm_num
+    omega)
   refine ⟨n, hn, ?_⟩
   have hmodel : (encTables .octets (some (.size c)) none).1.2 = perOf (perConstraint (some r)) := by
     simp only [encTables, emitTables, Option.map_some, hcomb, hr, resRange]
@@ -354,7 +369,7 @@ example : ∃ ms as, l2Comps (toL2 exModule 63) (autoSelected exModule exComps) 
   refine ⟨_, _, rfl, ?_, ?_⟩ <;> decide
 
 /-- the range computation succeeds on INTEGER (1..65536, ...): the hypothesis `hr` of `int_per_record` -/
-example : (Impl.CTables.resRange (Impl.CRange.computeTop { req := .value }
+example : (Impl.CTables.resRange (Impl.CRange.computeTop { req := .value, rootOnly := true }
     (some (combinedCT (.value ⟨some 1, some 65536, true⟩))))).isSome = true := by decide
 
 end Asn1c.Props.C10Compile
